@@ -49,6 +49,27 @@ example : reduce64 9252754402567472798 744673999053474881 =
     10 * (17101997453 * 61691312857) > 8 * 2 ^ 70 := by
   decide +kernel
 
+/-- `num_integer::Integer::extended_gcd(x0, y0)` on i64 in the situation of the `<64`-bit exit of
+`gcd_internal` (`0 < y0 <= x0 < 2^63`): no i64 operation overflows, the result is `(g, ex, ey)` with
+`g = gcd(x0, y0) = ex * x0 + ey * y0`, and the cofactors are at most HALF the operands:
+`2 |ex| <= y0`, `2 |ey| <= x0` (or `x0 = y0`, where `|ey| <= 1`) — the classical bound, from the last
+quotient being at least 2. -/
+theorem egcd_i64_half (x0 y0 : Nat) (hx : x0 < 2 ^ 63) (hy : 0 < y0) (hyx : y0 ≤ x0) :
+    ∃ g ex ey : Int, egcdI64 x0 y0 = some (g, ex, ey) ∧ g = Nat.gcd x0 y0 ∧ ex * x0 + ey * y0 = g ∧
+      2 * ex.natAbs ≤ y0 ∧ (2 * ey.natAbs ≤ x0 ∨ (x0 = y0 ∧ ey.natAbs ≤ 1)) := by
+  obtain ⟨g, s, t, he, _, _, b3, b4⟩ := egcdI64_total2 (X := x0) (Y := y0) (by norm_num at hx ⊢; exact hx) hy hyx
+  obtain ⟨h1, h2⟩ := egcdI64_spec he
+  refine ⟨g, s, t, he, ?_, h1.symm, ?_, ?_⟩
+  · rw [h2, Int.gcd_natCast_natCast]
+  · rw [Int.abs_eq_natAbs] at b3; exact_mod_cast b3
+  · rw [Int.abs_eq_natAbs] at b4
+    rcases b4 with b4 | ⟨b4, b5⟩
+    · left; exact_mod_cast b4
+    · right; exact ⟨b4, by exact_mod_cast b5⟩
+
+example : egcdI64 (12 : Nat) (5 : Nat) = some (1, -2, 5) ∧ egcdI64 (7 : Nat) (7 : Nat) = some (7, 0, 1) := by
+  decide +kernel
+
 /-- `no_panic`, extended variant with the real cofactor width, on the domain `max(n, p) < 2^(64N-7)`
 (1017 bits for N = 16, 505 bits for N = 8, 249 bits for N = 4; `no_panic_ext` had `64N-12`):
 `gcd_internal::<N, true>` never panics — no `BInt<N>` cofactor operation overflows, nor any other
